@@ -309,6 +309,59 @@ def check_enum_tables(ctx, db):
     ctx.check('(Anchor)(data16[0] & 15)' in t, 'R-TABLE', 'read_gds/PRESENTATION-mask', arm[0].loc(), 'the anchor is the low nibble of PRESENTATION')
 
 
+def _scaled_round(e):
+    """`e` is lround / llround of a product one factor of which is the scaling - possibly times a sign that is a constant +-1 or a
+    choice between the two, possibly negated, whatever the order of the factors and the casts around them"""
+    e = _strip_casts(e)
+    while e is not None and e.k == 'ParenExpr':
+        e = _strip_casts(e.c[0])
+    if e is None:
+        return False
+    if e.k == 'UnaryOperator' and e.op == '-':
+        return _scaled_round(e.child('sub'))
+    if e.k == 'BinaryOperator' and e.op == '*':
+        l, r = _strip_casts(e.child('lhs')), _strip_casts(e.child('rhs'))
+
+        def sign(x):
+            while x is not None and x.k == 'ParenExpr':
+                x = _strip_casts(x.c[0])
+            if x is None:
+                return False
+            if x.cv in (1, -1):
+                return True
+            return x.k == 'ConditionalOperator' and all(_strip_casts(c) is not None and _const_pm1(_strip_casts(c)) for c in x.c[1:3])
+        if sign(l):
+            return _scaled_round(r)
+        if sign(r):
+            return _scaled_round(l)
+        return False
+    if e.k == 'CallExpr' and (e.callee or '').split('::')[-1] in ('lround', 'llround') and len(e.args) == 1:
+        fac = []
+
+        def flat(x):
+            x = _strip_casts(x)
+            while x is not None and x.k == 'ParenExpr':
+                x = _strip_casts(x.c[0])
+            if x is not None and x.k == 'BinaryOperator' and x.op == '*':
+                flat(x.child('lhs'))
+                flat(x.child('rhs'))
+            elif x is not None:
+                fac.append(x)
+        flat(e.args[0])
+        return any((x.k == 'DeclRefExpr' and x.n == 'scaling') or (x.k == 'MemberExpr' and x.n == 'scaling') for x in fac)
+    return False
+
+
+def _const_pm1(x):
+    while x is not None and x.k == 'ParenExpr':
+        x = _strip_casts(x.c[0])
+    if x is None:
+        return False
+    if x.cv in (1, -1):
+        return True
+    return x.k == 'UnaryOperator' and x.op == '-' and _strip_casts(x.child('sub')) is not None and _strip_casts(x.child('sub')).cv == 1
+
+
 def check_units(ctx, db):
     n = 0
     for qn in ('gdstk::Polygon::to_gds', 'gdstk::Label::to_gds', 'gdstk::Reference::to_gds', 'gdstk::FlexPath::to_gds', 'gdstk::RobustPath::to_gds'):
@@ -330,7 +383,7 @@ def check_units(ctx, db):
                         continue
                     n += 1
                     t = norm(c.text())
-                    ok = re.match(r'^\(int32_t\)lround\(\(.* \* (?:\$?scaling)\)\)$', t) is not None
+                    ok = _scaled_round(c)
                     ctx.check(ok, 'R-UNIT', '%s/int32@%d' % (qn.replace('gdstk::', ''), c.id), c.loc(), 'stored as (int32_t)lround(user x scaling)', 'int32 database value computed as `%s` (not lround(user x scaling))' % t[:120])
                 continue
             if not is_store or rhs is None:
@@ -341,7 +394,7 @@ def check_units(ctx, db):
             if rhs.cv is not None or copy_of_int32:
                 continue            # a constant, or a copy of a value that is already in database units (the closing vertex)
             n += 1
-            ok = re.match(r'^\(int32_t\)lround\(\(.* \* scaling\)\)$', t) is not None or re.match(r'^\(\(this->scale_width \? 1 : \(-1\)\) \* \(int32_t\)lround\(\(.* \* scaling\)\)\)$', t) is not None
+            ok = _scaled_round(rhs)
             ctx.check(ok, 'R-UNIT', '%s/int32@%d' % (qn.replace('gdstk::', ''), x.id), x.loc(), 'stored as (int32_t)lround(user x scaling)', 'int32 database value computed as `%s` (not lround(user x scaling))' % t[:120])
     ctx.require('R-UNIT int32 sinks', n, 18)
     # ANGLE out / in
